@@ -412,7 +412,7 @@ func (e *Env) extrasGate(name string) {
 
 func init() {
 	register("C18", Meta{
-		Explanation: "Static analysis of the object/scope converters: all four look their argument up in the memo map first, register a new object/scope in both maps before converting anything it refers to (termination and sharing on the cyclic graphs every file has), carry Kind, Name, Decl, Data resp. Outer, Objects over through type switches with the documented arms and a panicking default; every *Object/*Scope-typed field of every node struct is converted in both directions; node-valued Decl/Data are deferred and drained under Extras with duplicates allowed; without Extras nil is returned. The package builder and scopes (resolve.go, scope.go: error, errorf, declare, resolve, NewPackage, NewScope, Lookup, Insert, NewObj) equal GOROOT go/ast after erasing positions (frozen, reasoned divergence), compared in the same canonical form as C14's fork. Decides the structural conditions of graph isomorphism; does not evaluate concrete graphs.",
+		Explanation: "Static analysis of the object/scope converters: all four look their argument up in the memo map first, register a new object/scope in both maps before converting anything it refers to (termination and sharing on the cyclic graphs every file has), carry Kind, Name, Decl, Data resp. Outer, Objects over through type switches with the documented arms and a panicking default; every *Object/*Scope-typed field of every node struct is converted in both directions; node-valued Decl/Data are deferred and drained under Extras with duplicates allowed; without Extras nil is returned. The package builder and scopes (resolve.go, scope.go: error, errorf, declare, resolve, NewPackage, NewScope, Lookup, Insert, NewObj) equal GOROOT go/ast after erasing positions (frozen, reasoned divergence), compared in the same canonical form as C14's fork. Decides the structural conditions of graph isomorphism; does not evaluate concrete graphs. A new object is registered before it is returned, the converters return nil for a nil argument under a real test, every non-nil arm of the switches over Decl/Data stores what it converted, and the Extras gate leaves the non-nil returns reachable. Known findings: declaring nodes of other files (Extras on the restore side, decorateObject on the decorate side).",
 		NotCovered:  []string{"isomorphism on concrete cyclic graphs"},
 	}, func(e *Env) {
 		e.RDeadAppend()
